@@ -1,6 +1,7 @@
 package main
 
 import (
+	"strings"
 	"bytes"
 	"fmt"
 	"io"
@@ -25,6 +26,8 @@ func init() {
 	evals["eckeygen"] = evalEckeygen
 	evals["sm2sign"] = evalSm2sign
 	evals["sm2fresh"] = evalSm2fresh
+	evals["ecsmulseq"] = evalEcsmulseq
+	evals["sm2verifye"] = evalSm2verifye
 	evals["sm2signder"] = evalSm2signder
 	evals["sm2verify"] = evalSm2verify
 	evals["sm2verifyder"] = evalSm2verifyder
@@ -83,6 +86,20 @@ func evalEcsmul(args []string) string {
 		return "ORACLE-FAIL:scalar-modified"
 	}
 	return pt(x, y)
+}
+
+// ecsmulseq <x,y,k> <x,y,k> ... : several ScalarMult calls in a row in one process (state kept between calls -
+// caches of tables of the last point - must not show): the results, "/"-separated
+func evalEcsmulseq(args []string) string {
+	var out []string
+	for _, a := range args {
+		f := strings.Split(a, ",")
+		if len(f) != 3 {
+			return "bad-op"
+		}
+		out = append(out, evalEcsmul(f))
+	}
+	return strings.Join(out, "/")
 }
 
 func evalEcbase(args []string) string {
@@ -221,6 +238,25 @@ func evalSm2verify(args []string) string {
 		uid = nil
 	}
 	if sm2.Sm2Verify(pubFromXY(x, y), msg, uid, r, s) {
+		return "1"
+	}
+	return "0"
+}
+
+// sm2verifye <x> <y> <e> <r> <s> : the digest-level entry point sm2.Verify(pub, hash, r, s)
+func evalSm2verifye(args []string) string {
+	if len(args) != 5 {
+		return "bad-op"
+	}
+	x, ok1 := bi(args[0])
+	y, ok2 := bi(args[1])
+	e, ok3 := unhx(args[2])
+	r, ok4 := bi(args[3])
+	s, ok5 := bi(args[4])
+	if !ok1 || !ok2 || !ok3 || !ok4 || !ok5 {
+		return "bad-op"
+	}
+	if sm2.Verify(pubFromXY(x, y), e, r, s) {
 		return "1"
 	}
 	return "0"
